@@ -297,6 +297,10 @@ def main_wrapper(prop, runner, argv=None):
         elif replay and isinstance(replay.get("scenario"), dict) and replay["scenario"].get("keys"):
             from harness import keys
             keys.replay(chk, replay["scenario"])
+        elif replay and isinstance(replay.get("scenario"), dict) and replay["scenario"].get("phase_module"):
+            # a scenario of one of the shared phases (harness/<module>.py: refine, limits, ...): the module replays it itself
+            import importlib
+            importlib.import_module("harness." + replay["scenario"]["phase_module"]).replay(chk, replay["scenario"])
         elif replay and isinstance(replay.get("scenario"), dict) and replay["scenario"].get("cli"):
             from harness import cli
             cli.replay(chk, replay["scenario"])
